@@ -414,6 +414,23 @@ public:
     if (eng->smp == "omp") return colvarproxy_smp::smp_biases_script_loop();
     return biases_schedule(true);
   }
+  // (C12) scripted variables: `scriptedFunction vsum` = the sum of all component values (what a Tcl procedure calc_vsum would return);
+  // its gradient with respect to every component is 1
+  int run_colvar_callback(std::string const &name, std::vector<const colvarvalue *> const &cvcs, colvarvalue &value) override
+  {
+    if (name != "vsum") return COLVARS_NOT_IMPLEMENTED;
+    cvm::real sum = 0.0;
+    for (size_t i = 0; i < cvcs.size(); i++) sum += cvcs[i]->real_value;
+    value = colvarvalue(sum);
+    return COLVARS_OK;
+  }
+  int run_colvar_gradient_callback(std::string const &name, std::vector<const colvarvalue *> const & /* cvcs */,
+                                   std::vector<cvm::matrix2d<cvm::real> > &gradient) override
+  {
+    if (name != "vsum") return COLVARS_NOT_IMPLEMENTED;
+    for (size_t i = 0; i < gradient.size(); i++) gradient[i][0][0] = 1.0;
+    return COLVARS_OK;
+  }
   // (C12) the scripted-force task: what a `calc_colvar_forces` Tcl procedure would do with `cv colvar <v> addforce <f>`
   int run_force_callback() override
   {
